@@ -266,8 +266,16 @@ def run_harnesses(obls, tier="quick"):
 
 def run_twin(twin):
     """twin = {crate, harness}: run the Kani twin of a failed Verus obligation to obtain concrete values."""
-    r = run_harnesses([{"crate": twin["crate"], "harness": twin["harness"], "kind": "bounded"}])
-    return r.get(twin["harness"])
+    hs = twin["harness"] if isinstance(twin["harness"], list) else [twin["harness"]]
+    r = run_harnesses([{"crate": twin["crate"], "harness": h, "kind": "bounded"} for h in hs])
+    # the first twin that fails with concrete values; otherwise the first one that fails; otherwise the first
+    for h in hs:
+        if (r.get(h) or {}).get("concrete_test"):
+            return r[h]
+    for h in hs:
+        if (r.get(h) or {}).get("status") == "failed":
+            return r[h]
+    return r.get(hs[0])
 
 
 def run_concrete(ct):
